@@ -22,7 +22,8 @@ for pid in pids:
     mod = importlib.import_module(f"sa.rules.{pid.lower()}")
     rep = Report(pid, "quick")
     try:
-        mod.run(Context(overlay=overlay), rep)
+        from sa.report import run_rules
+        run_rules(mod, Context(overlay=overlay), rep, pid)
         if rep.unmet_floors() and not rep.violations:
             raise AnalysisError("; ".join(rep.unmet_floors()))
         vs = [v for v in rep.violations if v.key(pid) not in known]
